@@ -280,13 +280,14 @@ pub fn drive(args: &HashMap<String, String>) {
     if profile == "ladder" {
         // ParamLadder (DESIGN 6.2): the k-th of n parameters, directly and through a helper taking the same list
         use crate::ast::{Expr, Helper, Pat};
-        let sizes: Vec<usize> = if n >= 100 { vec![1, 2, 7, 8, 9, 15, 16, 17, 31, 32, 33, 40] } else { vec![2, 8, 16, 17, 33] };
+        let sizes: Vec<usize> = if n >= 100 { vec![1, 2, 7, 8, 9, 15, 16, 17, 31, 32, 33, 40] } else { vec![2, 8, 17, 40] };
         for nn in sizes {
             let names: Vec<String> = (1..=nn).map(|i| format!("P{i}")).collect();
             let pat = Pat::list(names.iter().map(|x| Pat::Var(x.clone())).collect(), Pat::Nil);
             let env = V::list(&(1..=nn as i64).map(|i| V::int(1000 + i)).collect::<Vec<_>>());
             let env2 = V::list(&(1..=nn as i64).map(|i| V::list(&[V::int(i), V::int(-i)])).collect::<Vec<_>>());
-            let ks: Vec<usize> = if n >= 100 { (1..=nn).collect() } else { vec![1, (nn + 1) / 2, nn] };
+            // (the longest list: every position, so that every path width up to 40 steps occurs)
+            let ks: Vec<usize> = if n >= 100 || nn == 40 { (1..=nn).collect() } else { vec![1, (nn + 1) / 2, nn] };
             for k in ks {
                 let direct = Program { args: pat.clone(), helpers: vec![], body: Expr::Var(format!("P{k}")) };
                 let anames: Vec<String> = (1..=nn).map(|i| format!("A{i}")).collect();
